@@ -627,6 +627,33 @@ def lvnLoop (W : Loop) (cx : Cx) : Loop :=
   let r := lvnLc W.body cx
   { lvs := W.lvs.map fun lv => (lv.1, rnO cx.ren lv.2.1, rnO r.2.ren lv.2.2), body := r.1 }
 
+/-! `stmt_uses_basic_induction_var` (`loop_induction_variable_elimination.rs:19-97`) on the fragment:
+does a statement read the variable `x`? For a nested `While` the INITIAL values of its loop
+variables count (they are evaluated in the enclosing body once per outer iteration), as do the
+loop values and the body (…:69-74). IV elimination may drop the counter only if nothing reads it. -/
+
+def Operand.uses (x : Nat) : Operand → Bool
+  | .var y => y == x
+  | .lit _ => false
+
+def usesSimple (x : Nat) : Simple → Bool
+  | .bin _ _ a b => a.uses x || b.uses x
+  | .print a => a.uses x
+  | .brk a => a.uses x
+
+def usesL (x : Nat) : LStmt → Bool
+  | .s st => usesSimple x st
+  | .sif c _ body => c.uses x || body.any (usesSimple x)
+  | .ife c s1 s2 fas =>
+    c.uses x || s1.any (usesSimple x) || s2.any (usesSimple x) || fas.any (fun fa => fa.2.1.uses x || fa.2.2.uses x)
+
+def usesLoop (x : Nat) (W : Loop) : Bool :=
+  W.lvs.any (fun lv => lv.2.1.uses x || lv.2.2.uses x) || W.body.any (usesL x)
+
+/-- the faulty variant (seeded fault class C02d): initial values of the nested loop ignored -/
+def usesLoopNoInit (x : Nat) (W : Loop) : Bool :=
+  W.lvs.any (fun lv => lv.2.2.uses x) || W.body.any (usesL x)
+
 /-- SSA discipline of a block relative to the names in scope: every defined name is new, every
 used name is in scope. -/
 def wfSimple : List Simple → List Nat → Bool
